@@ -127,11 +127,15 @@ def run(chk):
         T = rng.choice([0.5, 1.0, 2.0, 0.1, 0.2])          # 0.1, 0.2: spectral weight far above the temperature
         nst = rng.choice([2, 3, 4, 5, 7, 10, 25])
         kind = rng.choice(["commuting", "commuting", "zero-coupling", "weak"])
+        if it == 4:
+            nst, kind, d = 290, "commuting", 2                # every run: many slices (independence of the number of steps has no upper end)
         if it < 2:
             nst, kind = [2, 3][it], "zero-coupling"          # every run: the minimal slice numbers with a complex Hamiltonian
         elif it < 4:
             kind = "commuting"                                # every run: coupled commuting models far above the zero of energy
         o = np.array([rng.choice([-1.0, 0.0, 0.5, 1.0]) for _ in range(d)])
+        if it == 4:
+            o, T = np.array([1.0, -0.5]), 1.0
         alpha = 0.0 if kind == "zero-coupling" else (0.3 if kind == "commuting" else 1e-4)
         corr = oqupy.PowerLawSD(alpha=alpha, zeta=rng.choice([1, 3]), cutoff=rng.choice([1.0, 3.0]),
                                 cutoff_type=rng.choice(["exponential", "gaussian"]), temperature=T)
